@@ -20,14 +20,14 @@ RULE = ('A case is one seeded operation history over two FeatureContainers: roun
 ASSUMPTIONS = [
     'results are compared as sets of feature tuples (order and multiplicity are not part of the statement)',
     'feature coordinates are non-negative integers with start <= end (closed intervals); query coordinates may be negative or far outside',
-    'a query on a container with un-indexed additions is preceded by sort() by the harness (the statement\'s histories always re-index first)',
+    'a query on a container with un-indexed additions is preceded by sort() by the harness (the statement\'s histories always re-index first), except point lookups marked lazy: findFeaturesAt re-indexes on demand and is expected to see the additions',
     'aligned blocks are half-open [start,end) as pysam defines them: a read overlaps a feature iff one of its aligned bases lies in the closed feature interval',
 ]
 COMPONENTS = {
     'real': ['FeatureAnnotatedMolecule.annotate (method 0 blocks / method 1 per base) on base Fragment reads', 'singlecellmultiomics.features.FeatureContainer (addFeature, sort, findFeaturesAt all optim variants, findFeaturesBetween, findFeaturesAtPysamAlign)', 'functools.lru_cache shared by all instances', 'pysam.AlignedSegment'],
     'stub': [],
 }
-REQUIRED_PROBES = ['molecule_annotation', 'repeat_query_across_reindex', 'lru_churn_evicted', 'nonempty_result', 'read_query', 'nested_hit']
+REQUIRED_PROBES = ['lazy_reindex_by_point_query', 'molecule_annotation', 'repeat_query_across_reindex', 'lru_churn_evicted', 'nonempty_result', 'read_query', 'nested_hit']
 
 
 def plan(tier):
@@ -104,6 +104,11 @@ def generate(seed, tier):
         nfeat_total += nadd
         for f in _rand_features(w, nadd, span, chroms, tag=str(r)):
             ops.append(['add', c] + f)
+        lazy_first = w.random() < 0.25
+        if lazy_first:
+            # a point lookup right after the additions, WITHOUT an explicit sort(): findFeaturesAt re-indexes lazily and must already see the new features
+            f0 = ops[-1]
+            ops.append(['at', c, f0[2], w.randint(f0[3], f0[4]), None, 'bdbnb', 'lazy'])
         ops.append(['sort', c])
         nq = weighted(w, [(w.randint(1, 6), 4), (w.randint(7, 40), 4), (w.randint(41, 200), 1)])
         for _ in range(nq):
@@ -258,7 +263,14 @@ def execute(case):
         else:
             if not model[c]:
                 continue
-            ensure_sorted(c)
+            if len(op) > 6 and op[6] == 'lazy' and kind == 'at':
+                if dirty[c]:
+                    probe('lazy_reindex_by_point_query')
+                    dirty[c] = False        # the lookup itself re-indexes
+                    epoch[c] += 1
+                op = op[:6]
+            else:
+                ensure_sorted(c)
             if broken[c]:
                 continue
             key = repr(op)
